@@ -600,7 +600,7 @@ def hyp_coverage_types(run, C, key, module, fn):
     def runit(sh_i):
         si, sh = sh_i
         body = ["From XdrProofs Require Import %s." % module, "Open Scope string_scope.",
-                "Eval vm_compute in (map (fun a => (N.of_nat (List.length (filter (%s a) (map fst (types a)))), "
+                "Eval vm_compute in (map (fun a => (N.of_nat (List.length (filter ((%s) a) (map fst (types a)))), "
                 "N.of_nat (List.length (types a)))) [%s])." % (fn, ";\n".join(ct.ast(o["ast"]) for o in sh))]
         return xv.parse_pairs(xv.coq_eval("hypt_%s_%s_%d" % (key[:12], run.pid, si), "\n".join(body)))
     try:
